@@ -27,6 +27,8 @@ def configs(tier):
     out = [dict(kind='units', name='universe_alpha_optimisers_N%d' % n, n=n, weight=10, chunk=40, chunk_s=30, entry_tz='UTC',
                 bound='%d assets: symbolic entry instants (or none), query instant, signal, scale, weights' % n,
                 twins=['member', 'nonmember', 'entry_equals_query'])]
+    out.append(dict(kind='units', name='universe_alpha_optimisers_N1', n=1, weight=5, chunk=40, chunk_s=30, entry_tz='UTC',
+                    bound='a single asset (single-asset universe and single-key weight dictionaries)', twins=['member', 'nonmember']))
     for z in ('America/New_York', 'Asia/Tokyo'):
         out.append(dict(kind='units', name='universe_entries_in_%s' % z.split('/')[1].lower(), n=2, weight=10, chunk=40, chunk_s=30, entry_tz=z,
                         bound='2 assets whose entry instants are timezone-aware in %s (the query instant is UTC): membership compares instants' % z,
@@ -92,13 +94,13 @@ class Units(Harness):
             obl.append(('alpha_weight_iff_member[%s]' % a, L.Not(L.Iff(L.bool(a in o['alpha']), member))))
             if a in o['alpha']:
                 obl.append(('alpha_weight_is_the_signal[%s]' % a, L.ne(o['alpha'][a], i['signal'])))
-        obl.append(('members_in_mapping_order', L.bool(o['members'] != [a for a in order if a in o['members']])))
+        # (the order of the members is not part of the statement for a dynamic universe: compared as sets)
         obl.append(('no_unknown_or_duplicate_members', L.bool(len(set(o['members'])) != len(o['members']) or any(a not in A for a in o['members']))))
-        obl.append(('alpha_keys_are_the_members', L.bool(list(o['alpha'].keys()) != o['members'])))
+        obl.append(('alpha_keys_are_the_members', L.bool(sorted(o['alpha'].keys()) != sorted(o['members']))))
         obl.append(('static_universe_yields_exactly_its_list', L.bool(o['static'] != order)))
-        obl.append(('static_alpha_keys', L.bool(list(o['static_alpha'].keys()) != list(A))))
-        obl.append(('fixed_weight_keys', L.bool(list(o['fixed'].keys()) != list(A))))
-        obl.append(('equal_weight_keys', L.bool(list(o['equal'].keys()) != list(A))))
+        obl.append(('static_alpha_keys', L.bool(sorted(o['static_alpha'].keys()) != sorted(A))))
+        obl.append(('fixed_weight_keys', L.bool(sorted(o['fixed'].keys()) != sorted(A))))
+        obl.append(('equal_weight_keys', L.bool(sorted(o['equal'].keys()) != sorted(A))))
         n = len(A)
         tot = 0
         for a in A:
